@@ -380,7 +380,8 @@ theorem parseNTPSub_enc (s : NTPSub) (h : NTPSubOK s) : parseNTPSub s.code (encN
   | srvFQDN l =>
     simp only [NTPSubOK] at h
     simp only [NTPSub.code, encNTPSub, parseNTPSub, show ¬ ((3 : Nat) = 1) by decide,
-      show ¬ ((3 : Nat) = 2) by decide, if_false, if_true, labels_rt l h]
+      show ¬ ((3 : Nat) = 2) by decide, if_false, if_true, labels_rt l h.1, h.2, ne_eq,
+      not_true_eq_false]
   | generic c d =>
     obtain ⟨_, h1, h2, h3⟩ := h
     simp only [NTPSub.code, encNTPSub, parseNTPSub, h1, h2, h3, if_false]
